@@ -212,8 +212,8 @@ func (propC14) Gen(r *Rng, run uint64, tier string) *Plan {
 			if r.Bool(0.35) {
 				spec.NMin, spec.NMax = 129, 160
 			}
-		case x < 12:
-			spec.RecMax = 60
+		case x < 14:
+			spec.RecMin, spec.RecMax = 20, 90
 		case x < 15:
 			spec.NoHuge, spec.Msg, spec.RecMax = false, "rich", 5
 		}
@@ -317,7 +317,7 @@ func (propC14) Gen(r *Rng, run uint64, tier string) *Plan {
 			open = fr.Intn(2)
 		}
 		l, _ := BuildStream(c, stdOpts(), nil)
-		kind := []string{FaultCut, FaultCut, FaultReadError, FaultReadError, FaultFrame, FaultFrame, FaultOpenError, FaultOpenError, FaultListError, FaultCancel, FaultSlowRead, FaultOpenLatency, FaultCloseError}[fr.Intn(13)]
+		kind := []string{FaultCut, FaultCut, FaultReadError, FaultReadError, FaultFrame, FaultFrame, FaultOpenError, FaultOpenError, FaultListError, FaultCancel, FaultSlowRead, FaultOpenLatency, FaultCloseError, FaultCtxCancel}[fr.Intn(14)]
 		if len(l.Ends) == 0 && (kind == FaultCut || kind == FaultFrame || kind == FaultSlowRead) {
 			kind = FaultReadError
 		}
@@ -330,8 +330,13 @@ func (propC14) Gen(r *Rng, run uint64, tier string) *Plan {
 				break
 			}
 			fi := []int{0, 0, len(l.Ends) / 2, len(l.Ends) - 1, fr.Intn(len(l.Ends))}[fr.Intn(5)]
-			if p.Params.Limit > 0 && fr.Bool(0.4) && len(opened) == 1 && p.Params.Limit < len(l.Ends) {
-				fi = p.Params.Limit // record L+1 under limit L
+			if p.Params.Limit > 0 && fr.Bool(0.4) && p.Params.Limit < len(l.Ends) {
+				// record L+1 under limit L, or a buffer's length further (a prefetching reader
+				// runs ahead of the consumer by some power of two)
+				fi = p.Params.Limit + []int{0, 0, 0, 1, 7, 8, 15, 16, 17, 31, 32, 33, 34, 63, 64, 65}[fr.Intn(16)]
+				if fi >= len(l.Ends) {
+					fi = p.Params.Limit
+				}
 				p.Tags["fault_at_limit_plus_one"] = "1"
 			}
 			class := []string{"boundary", "header", "hdr_body", "body", "body", "last"}[fr.Intn(6)]
@@ -351,8 +356,11 @@ func (propC14) Gen(r *Rng, run uint64, tier string) *Plan {
 			p.Tags["frame"] = fmt.Sprint(fi)
 		case FaultFrame:
 			f.Frame = []int{0, 0, len(l.Ends) / 2, len(l.Ends) - 1, fr.Intn(len(l.Ends))}[fr.Intn(5)]
-			if p.Params.Limit > 0 && fr.Bool(0.4) && len(opened) == 1 && p.Params.Limit < len(l.Ends) {
-				f.Frame = p.Params.Limit
+			if p.Params.Limit > 0 && fr.Bool(0.4) && p.Params.Limit < len(l.Ends) {
+				f.Frame = p.Params.Limit + []int{0, 0, 0, 1, 7, 8, 15, 16, 17, 31, 32, 33, 34, 63, 64, 65}[fr.Intn(16)]
+				if f.Frame >= len(l.Ends) {
+					f.Frame = p.Params.Limit
+				}
 				p.Tags["fault_at_limit_plus_one"] = "1"
 			}
 			f.FrameKind = frameKindsAll[fr.Intn(len(frameKindsAll))]
@@ -364,7 +372,7 @@ func (propC14) Gen(r *Rng, run uint64, tier string) *Plan {
 			if tpl.twoSel && fr.Bool(0.5) {
 				f.K = 1
 			}
-		case FaultCancel:
+		case FaultCancel, FaultCtxCancel:
 			f.Container = ""
 			f.Event = -(1 + fr.Intn(1_000_000)) // relative; resolved against the twin's event count
 		case FaultOpenLatency:
@@ -453,7 +461,7 @@ func (propC14) Expand(t *testing.T, p *Plan) []*Plan {
 		cp := *p
 		cp.Faults = append([]Fault(nil), p.Faults...)
 		for i := range cp.Faults {
-			if cp.Faults[i].Kind == FaultCancel && cp.Faults[i].Event < 0 {
+			if (cp.Faults[i].Kind == FaultCancel || cp.Faults[i].Kind == FaultCtxCancel) && cp.Faults[i].Event < 0 {
 				n := o.Transport
 				if n < 1 {
 					n = 1
@@ -469,6 +477,9 @@ func (propC14) Expand(t *testing.T, p *Plan) []*Plan {
 	}
 	for e := 1; e <= o.Transport; e++ {
 		out = append(out, mk(Fault{Kind: FaultCancel, Open: -1, Event: e}, "cancel", nil))
+		if e <= 40 {
+			out = append(out, mk(Fault{Kind: FaultCtxCancel, Open: -1, Event: e}, "ctx_cancel", nil))
+		}
 	}
 	// Batch sizes of the twin, to enumerate release orders for open errors.
 	for _, oc := range o.Opens {
@@ -531,7 +542,7 @@ func (propC14) Expand(t *testing.T, p *Plan) []*Plan {
 		for i := 0; i < len(singles); i += stride {
 			for j := i + 1; j < len(singles); j += stride {
 				a, b := singles[i].Faults[0], singles[j].Faults[0]
-				if a.Kind == FaultCancel || b.Kind == FaultCancel {
+				if a.Kind == FaultCancel || b.Kind == FaultCancel || a.Kind == FaultCtxCancel || b.Kind == FaultCtxCancel {
 					continue
 				}
 				cp := *singles[i]
@@ -548,6 +559,11 @@ func (propC14) Expand(t *testing.T, p *Plan) []*Plan {
 // c14Observed lists the faults the code under test was told about.
 func c14Observed(o *Outcome) []string {
 	var obs []string
+	if o.CtxCancelled {
+		// the evaluation's context was cancelled while the daemon went on answering:
+		// code that looks at the context may fail, code that does not may finish
+		obs = append(obs, FaultCtxCancel)
+	}
 	if o.FaultsFired[FaultListError] > 0 {
 		obs = append(obs, FaultListError)
 	}
@@ -743,7 +759,7 @@ func (propC14) Check(t *testing.T, p *Plan, st *Stats) *Violation {
 		}
 		hard := 0
 		for _, k := range observed {
-			if k != FaultCloseError {
+			if k != FaultCloseError && k != FaultCtxCancel {
 				hard++
 			}
 		}
